@@ -3,6 +3,7 @@ CONSTANTS
   MaxLives = 2
   MaxFaults = 1
   MaxCrashes = 1
+  MaxReboots = 1
   InitFiles = {100, 0, 102}
 INVARIANT NoNewViolation
 INVARIANT EmitB
